@@ -24,3 +24,26 @@ pub broadcast group group_instant { axiom_instant_add_req, axiom_instant_add_obe
 // two Instants at the same point are the same Instant (Instant is a plain (secs, nanos) pair)
 pub broadcast axiom fn axiom_instant_ext(a: Instant, b: Instant)
     ensures #[trigger] inst_ns(a) == #[trigger] inst_ns(b) ==> a == b;
+// ---- Duration arithmetic used by StunRequestMut::configure_timeout (trusted: mathematical arithmetic on the nanosecond count; the
+// real operators panic on overflow of a u64 second count, excluded by the mul_req / add_req bounds below)
+pub assume_specification [ Duration::as_millis ] (d: &Duration) -> (r: u128)
+    ensures r as int == dur_ns(*d) as int / 1_000_000;
+pub open spec fn pow2(e: nat) -> nat decreases e { if e == 0 { 1 } else { 2 * pow2((e - 1) as nat) } }
+pub assume_specification [ u32::pow ] (b: u32, e: u32) -> (r: u32)
+    requires b == 2 && e < 32
+    ensures r as nat == pow2(e as nat);
+pub broadcast axiom fn axiom_duration_mul_req(d: Duration, k: u32)
+    ensures #[trigger] <Duration as MulSpec<u32>>::mul_req(d, k) == (dur_ns(d) * k as nat <= 0xffff_ffff_ffff_ffff);
+pub broadcast axiom fn axiom_duration_mul_obeys()
+    ensures #[trigger] <Duration as MulSpec<u32>>::obeys_mul_spec();
+pub broadcast axiom fn axiom_duration_mul_val(d: Duration, k: u32)
+    ensures dur_ns(#[trigger] <Duration as MulSpec<u32>>::mul_spec(d, k)) == dur_ns(d) * k as nat;
+pub broadcast axiom fn axiom_duration_add_req(a: Duration, b: Duration)
+    ensures #[trigger] <Duration as AddSpec<Duration>>::add_req(a, b) == (dur_ns(a) + dur_ns(b) <= 0xffff_ffff_ffff_ffff);
+pub broadcast axiom fn axiom_duration_add_obeys()
+    ensures #[trigger] <Duration as AddSpec<Duration>>::obeys_add_spec();
+pub broadcast axiom fn axiom_duration_add_val(a: Duration, b: Duration)
+    ensures dur_ns(#[trigger] <Duration as AddSpec<Duration>>::add_spec(a, b)) == dur_ns(a) + dur_ns(b);
+pub broadcast group group_duration { axiom_duration_mul_req, axiom_duration_mul_obeys, axiom_duration_mul_val, axiom_duration_add_req, axiom_duration_add_obeys, axiom_duration_add_val }
+pub assume_specification [ Duration::ZERO ] -> (r: Duration)
+    ensures dur_ns(r) == 0;
